@@ -23,12 +23,20 @@ class Ref(Expression):
         return self.name
 
     def _compile(self, out, flags):
-        if flags.uses_context and not self.is_local:
-            func = Code(f'_ctx.{self.resolved}')
-        else:
-            func = Code(self.resolved)
+        func = Code(self._qualified(flags))
 
         out += (STATUS, RESULT, POS) << Yield((CALL, func, POS))
 
+    def _qualified(self, flags):
+        # Rules are looked up in the context that is passed along at parse time,
+        # so that a grammar that extends this one can override them. Locals are
+        # plain names, and "super" always means the parent of the grammar in
+        # which it is written, whoever is parsing.
+        is_static = self.is_local or self.resolved.startswith('_super_ctx.')
+        if flags.uses_context and not is_static:
+            return f'_ctx.{self.resolved}'
+        else:
+            return self.resolved
+
     def argumentize(self, out, flags):
-        return Code(self.resolved)
+        return Code(self._qualified(flags))
